@@ -26,14 +26,14 @@ HISTORY_TAGS = {
 
 PROPS = {
     "C07": {
-        "runs": [("C07", "std", "normal")],
+        "runs": [("C07", "std", "normal"), ("C07", "nostd", "normal")],
         "rule": "tag 70: every (channel, controller number) pair x boundary/seeded values (thorough: all 16384 values) through new/getters/to_short_messages for RawShortMessage and StructuredShortMessage; tag 71: seeded messages fed as encoded pairs after a seeded random prior history (any implementor kind). distinct = distinct input vectors; non-trivial = the observation contains a value other than None",
         "exhaustive": {"thorough": True},
         "assumptions": ["restricted integers are built through the checked public constructors",
                         "feeds use valid short messages (status >= 0x80, 7-bit data bytes)"],
     },
     "C08": {
-        "runs": [("C08", "std", "normal")],
+        "runs": [("C08", "std", "normal"), ("C08", "nostd", "normal")],
         "rule": "tag 80: all histories of depth 4 (thorough: 6) over a 10-symbol abstract alphabet (MSB/LSB matching and non-matching, other controller, other message, second channel, reset, system message; raw / structured / third-party implementors) plus seeded random histories over the full alphabet on 1-16 channels. distinct = distinct histories; non-trivial = at least one report",
         "exhaustive": {},
         "assumptions": ["feeds use valid short messages"],
@@ -42,19 +42,19 @@ PROPS = {
 
 PROPS.update({
     "C09": {
-        "runs": [("C09", "std", "normal")],
+        "runs": [("C09", "std", "normal"), ("C09", "nostd", "normal")],
         "rule": "tag 90: for each of the 8 constructors and both byte orders: all 16 channels, a sweep of the parameter numbers (thorough: all 16384) and of the values with the other arguments on boundary/seeded values, plus seeded random tuples; observation = getters, 4 slots for RawShortMessage and StructuredShortMessage, and the array conversion. distinct = distinct argument tuples; every record is non-trivial (a message is always built)",
         "exhaustive": {},
         "assumptions": ["arguments are valid restricted integers (built through the checked constructors)"],
     },
     "C10": {
-        "runs": [("C10", "std", "normal")],
+        "runs": [("C10", "std", "normal"), ("C10", "nostd", "normal")],
         "rule": "tag 100: seeded messages of all 8 kinds, encoded (7-bit: both orders; 14-bit: LSB first) and fed, as any implementor kind, after a seeded random prior history; tag 101: running forms (single data bytes on controller 6/96/97, or LSB,MSB pairs) of length 0-12 and seeded long ones (200-500) after one selection and a random prior history",
         "exhaustive": {},
         "assumptions": ["feeds use valid short messages"],
     },
     "C11": {
-        "runs": [("C11", "std", "normal")],
+        "runs": [("C11", "std", "normal"), ("C11", "nostd", "normal")],
         "rule": "tag 110: all histories of depth 4 (thorough: 5) over a 14-symbol abstract alphabet (each of the 8 contributing controllers, a non-contributing controller, a non-CC message, a second channel, reset, a system message) plus seeded random histories over the full alphabet on 1-16 channels; non-trivial = at least one report",
         "exhaustive": {},
         "assumptions": ["feeds use valid short messages"],
@@ -99,25 +99,25 @@ PROPS.update({
 
 PROPS.update({
     "C01": {
-        "runs": [("C01", "std", "normal")],
+        "runs": [("C01", "std", "normal"), ("C01", "nostd", "normal")],
         "rule": "tag 10: from_bytes for 4 factory implementations (raw, structured, two harness-defined third-party types) on all 256 status bytes x boundary data bytes, every type x all values of one data byte, seeded random triples (thorough: all 256x128x128 triples); tag 11: StructuredShortMessage values built through the public enum (all variants; quick: full sweep of one field with the others on boundaries, all 120 quarter frames, all 16384 song positions; thorough: every value); tag 12: all 128 quarter-frame bytes; tag 13: all 256 type codes",
         "exhaustive": {"thorough": True},
         "assumptions": ["data bytes are valid U7 values"],
     },
     "C02": {
-        "runs": [("C02", "std", "normal")],
+        "runs": [("C02", "std", "normal"), ("C02", "nostd", "normal")],
         "rule": "tag 20: every classification / accessor method on raw, structured and third-party implementors for all 128 valid status bytes x boundary data bytes (incl. 119,120,121,127), every type x all values of one data byte, seeded random triples (thorough: all 2^21 triples x 3 implementors); tag 13: all 256 values of the ShortMessageType conversion",
         "exhaustive": {"thorough": True},
         "assumptions": [],
     },
     "C03": {
-        "runs": [("C03", "std", "normal")],
+        "runs": [("C03", "std", "normal"), ("C03", "nostd", "normal")],
         "rule": "tag 30: all ordered pairs of the 4 implementors x {to_other, from_other} plus to_structured; all methods of the trait on the original and on the converted message; all valid status bytes x boundary data bytes + seeded random triples (thorough: every valid triple, cycling through the combinations). The decider compares the implementations with each other",
         "exhaustive": {},
         "assumptions": [],
     },
     "C06": {
-        "runs": [("C06", "std", "normal")],
+        "runs": [("C06", "std", "normal"), ("C06", "nostd", "normal")],
         "rule": "tag 60: the 19 named constructors for RawShortMessage and StructuredShortMessage (quick: full sweep per argument with the others on boundaries; thorough: every argument tuple), all 16384 14-bit values x channels (quick: stride 11), all 128 quarter-frame bytes; tag 61: 23 types x 3 generic constructors x channels x boundary data; tag 62: test_util shorthands with in- and out-of-range primitives",
         "exhaustive": {"thorough": True},
         "assumptions": [],
@@ -162,6 +162,7 @@ _C18_MORE = ["C03", "C05", "C08", "C15"]
 PROPS.update({
     "C18": {
         "runs": [(g, "std", "c18") for g in _C18_GENS] + [("C04", "std", "c18"), ("C04", "nostd", "c18")]
+                + [(g, "nostd", "c18") for g in ["C02", "C06", "C07", "C09", "C10", "C11"]]
                 + [(g, "std", "c18", "thorough") for g in _C18_MORE],
         "rule": "the generators of the other checks (quick: C01 C02 C04(both feature configurations) C06 C07 C09 C10 C11 C14 C16 C17 C19; thorough: all of them) are re-run with every implementation call inside catch_unwind and an allocation-counting region of the harness's global allocator (harness built with opt-level 1, overflow checks and debug assertions on). A record fails if the implementation panics where the model does not (or vice versa), or if a non-panicking call allocated. distinct = distinct inputs; non-trivial = some value observed",
         "exhaustive": {},
